@@ -491,7 +491,7 @@ class Histories(Part):
             "refresh, stdout writes (redirected), add/advance/show/hide/remove task, status text, start, stop, with frames that grow, shrink, become empty or "
             "exceed the screen; after every op the bytes written are replayed on the VT model and compared with printed rows + frame as of the last draw; "
             "non-trivial = a print between two draws of frames of different height")
-    budget = {"quick": (8, 150), "thorough": (16, 4000)}
+    budget = {"quick": (16, 300), "thorough": (16, 4000)}
     chunk = 150
 
     def strategy(self, tier):
@@ -526,7 +526,7 @@ class Faults(Part):
     rule = ("histories (<= 14 ops) x a fault: the displayed renderable raises at render index k (one-shot or persistent; propagating out of the live block, or "
             "caught by the program which then continues), or the block body raises after j ops; required: the exception propagates, stdout/stderr, render hook, "
             "started flag and cursor are restored, and everything printed successfully stays on the screen; non-trivial = the fault fired between start and stop")
-    budget = {"quick": (8, 250), "thorough": (16, 6000)}
+    budget = {"quick": (16, 400), "thorough": (16, 6000)}
     chunk = 250
 
     def strategy(self, tier):
